@@ -507,3 +507,102 @@ def _m32():
     def add(self, file_filter, found, extra):
         orig(self, file_filter, found[:-1] if len(found) > 1 else found, extra)
     bfind.FindCache.add = add
+
+
+@mutant('make_dep_no_bracket')
+def _m33():
+    # '[' dropped from the escape tables
+    _make_writer_regex('dep_ex', r'(\\*)(^~|[|?*\s#:])')
+    _make_writer_regex('target_ex', r'(\\*)(^~|[%?*\s#:])')
+
+
+@mutant('make_include_double_escape')
+def _m34():
+    # include() stores the already-escaped name, write() escapes it again
+    from bfg9000.backends.make import syntax as ms
+    orig = ms.Makefile.include
+
+    def include(self, name, optional=False):
+        orig(self, self._target_str(name), optional)
+    ms.Makefile.include = include
+
+
+def _patch_source(owner, name, old, new):
+    """re-compile one function/method of the live code with a textual change (the mutant lives in
+    the worker process only)"""
+    import inspect
+    import textwrap
+    fn = owner.__dict__[name]
+    kind = None
+    if isinstance(fn, (classmethod, staticmethod)):
+        kind = type(fn)
+        fn = fn.__func__
+    src = textwrap.dedent(inspect.getsource(fn))
+    assert old in src, (name, old)
+    src = src.replace(old, new)
+    if src.lstrip().startswith('@'):
+        src = src[src.index('def '):]
+    glb = fn.__globals__
+    ns = {}
+    # methods using name-mangled attributes or zero-argument super() need their class cell
+    code = compile(src, inspect.getsourcefile(fn), 'exec')
+    exec(code, glb, ns)
+    new_fn = ns[fn.__name__]
+    if kind:
+        new_fn = kind(new_fn)
+    setattr(owner, name, new_fn)
+
+
+@mutant('link_libs_keep_first')
+def _m35():
+    # the forwarding order as it was before the fix (keep the first occurrence)
+    from bfg9000.builtins import link as blink
+    src_old = '''self.libs = list(reversed(uniques(reversed(
+            self.user_libs + forward_opts.libs
+        ))))'''
+    import inspect
+    import textwrap
+    src = textwrap.dedent(inspect.getsource(blink.Link.__init__))
+    start = src.index('self.libs = list(reversed(')
+    end = src.index('))))', start) + 4
+    src = src[:start] + 'self.libs = self.user_libs + forward_opts.libs' + src[end:]
+    src = src.replace('self.__name(', 'self._Link__name(').replace('self.__find_linker(',
+                                                                   'self._Link__find_linker(')
+    src = src.replace('super().__init__(', 'super(blink.Link, self).__init__(')
+    glb = dict(blink.Link.__init__.__globals__)
+    glb['blink'] = blink
+    ns = {}
+    exec(compile(src, blink.__file__, 'exec'), glb, ns)
+    blink.Link.__init__ = ns['__init__']
+
+
+@mutant('forward_recurse_shallow')
+def _m36():
+    # requirements of static libraries are forwarded one level only
+    from bfg9000 import options as opts
+
+    def recurse(cls, libs):
+        result = cls()
+        for i in libs:
+            f = getattr(i, 'forward_opts', None)
+            if f:
+                result.update(f)
+        return result
+    opts.ForwardOptions.recurse = classmethod(recurse)
+
+
+@mutant('rpath_absolute')
+def _m37():
+    # $ORIGIN prefix dropped: the run-time path is relative to the cwd, not to the binary
+    from bfg9000.tools import patchelf
+    from bfg9000.path import Root, InstallRoot
+
+    def local_rpath(env, library, output):
+        if not library.runtime_file:
+            return None
+        rpath = library.runtime_file.path.parent().cross(env)
+        if rpath.root != Root.absolute and rpath.root not in InstallRoot:
+            if rpath.root == output.path.root:
+                rpath = rpath.relpath(output.path.parent(), prefix='')
+        return rpath
+    patchelf.local_rpath = local_rpath
